@@ -1,5 +1,8 @@
 """Per-property configuration of bin/check."""
 
+HOOK_COMMITS = ["dd37a88"]
+NOT_APPLICABLE = {}
+
 CHECKS = {
     "C07": {
         "runs": [{"subcmd": "part", "shards_quick": 4, "shards_thorough": 16}],
@@ -9,11 +12,36 @@ CHECKS = {
                 "(Z and reconstructed B). A case is non-trivial when the partition has >= 2 blocks (and, for L, the block index is "
                 "in range); distinct = distinct input tuples (digest of the input part of the line).",
         "exhaustive_quick": True, "exhaustive_thorough": True,
+        "level_text": "Theorems C07_* (Properties/C07.v) prove, for all b,l,e, that the model of partition.rs computes the RFC 5052 partition, covers T symbols, that block byte lengths sum to L with only the last short, that sender slices equal receiver block lengths, that B reconstructed from Z gives the same partition and that no u64 operation overflows for L<2^48,E<2^16. The model is tied to the code on every run by exhaustive-grid and boundary/random differential evaluation of the real functions against the extracted model.",
         "explanation": "Theorems C07_* proved for all (b,l,e) on the Gallina model of common/partition.rs; the model is tied to the "
                        "code by evaluating the real functions (hook feature ypo_flute_verif) on the grid and comparing with the "
                        "extracted model; P_C07_* (Coq-defined, extracted) evaluated on the implementation's outputs.",
         "assumptions": ["model of partition.rs is hand-written; faithfulness established by the correspondence run only",
                         "u64 arithmetic modelled with checked operations (None = overflow/underflow panic)"],
         "trusted_base": ["model: coq/theories/Model/Partition.v (block_partitioning, block_length, u64 variants, reconstructed_b, sender_slices)"],
+    },
+    "C08": {
+        "runs": [{"subcmd": "encode", "shards_quick": 4, "shards_thorough": 16, "driver_args": ["c08"]}],
+        "rule": "E lines: BlockEncoder (through FileDesc::new + BlockEncoder::new/read, hook feature) on a grid of "
+                "{No-Code, RS28, RS28-US, RaptorQ, Raptor} x E x B x parity 0..2 x window 1..3(4) x closable x object lengths 0..3 blocks+2, "
+                "each once unforced and once with force_close_object at a random read, plus seeded random larger objects; "
+                "non-trivial = at least two packets emitted; distinct = distinct input lines.",
+        "level_text": "Proved for every block list, window and reachable state: an uninterrupted transfer emits each block's encoding symbols exactly once, in order, ends without panic, and carries the close flag on its last packet only (iff last transfer); a forced read closes and silences the encoder; an empty object is the lone close packet. The clause 'payload = E-byte slice at the RFC offset' is evaluated by the Coq-defined P_C08_transfer on the implementation's packets on every run (full theorem C08_transfer_full stated, not yet proved) - partial in that respect. Known finding D30 (Raptor symbol cutting) is reported, not suppressed beyond its class.",
+        "explanation": "Scheduler theorems (each block's shards once, in order, flag last) proved for all block lists/windows; "
+                       "slice/offset clause evaluated by P_C08_transfer (Coq-defined, RFC partition + object bytes) on the implementation's packets.",
+        "assumptions": ["repair symbol payloads are an oracle (not compared)", "raptor-code source symbol cutting is an oracle validated by the run",
+                        "C08_transfer_full (blocks_of_buffer satisfies wf and the slice clause) is evaluated, not yet proved"],
+        "trusted_base": ["model: coq/theories/Model/BlockEnc.v (block.rs, blockencoder.rs, FileDesc::new acceptance)"],
+    },
+    "C20": {
+        "extract": "C08", "driver": "c08",
+        "runs": [{"subcmd": "source", "shards_quick": 4, "shards_thorough": 16, "driver_args": ["c20"]}],
+        "rule": "E lines with a stream source (custom Read+Seek with a read schedule: 1 byte, fixed small, random sizes, whole) over the "
+                "same FEC x E x B x parity x window grid incl. empty objects, plus random larger ones; the packets are compared with the "
+                "model's packets for the BUFFER source of the same bytes; non-trivial = at least two packets; distinct = distinct input lines.",
+        "level_text": "C20_chunking_independent: for every FEC oracle, configuration, content and every read schedule of positive reads the blocks (hence packets) of a stream source equal those of the buffer source; tied to blockencoder.rs by differential runs with scheduled short reads.",
+        "explanation": "C20_chunking_independent proved for every schedule of positive reads; model tied to blockencoder.rs by the run.",
+        "assumptions": ["a stream's read() returns between 1 and the requested number of bytes until EOF, then 0 (std::io::Read contract)"],
+        "trusted_base": ["model: coq/theories/Model/BlockEnc.v (read_block_stream as read_fill, read_block_buffer as blocks_buf)"],
     },
 }
